@@ -1727,7 +1727,8 @@ def _py_binop(op, a, b):
     import operator
 
     f = {ast.Add: operator.add, ast.Sub: operator.sub, ast.Mult: operator.mul, ast.Div: operator.truediv,
-         ast.Mod: operator.mod, ast.FloorDiv: operator.floordiv, ast.Pow: operator.pow}[type(op)]
+         ast.Mod: operator.mod, ast.FloorDiv: operator.floordiv, ast.Pow: operator.pow,
+         ast.BitXor: operator.xor, ast.BitAnd: operator.and_, ast.BitOr: operator.or_, ast.LShift: operator.lshift, ast.RShift: operator.rshift}[type(op)]
     return f(a, b)
 
 
